@@ -68,6 +68,7 @@ def run(ctx):
     r6_inprocess(ctx, fn)
     r7_nothing_swallowed(ctx)
     r8_report_channel(ctx)
+    r9_no_blocking_receive(ctx)
 
 
 def _line(fn, name):
@@ -455,7 +456,29 @@ def r7_nothing_swallowed(ctx):
     ctx.ob("C08.R7", "coba/multiprocessing.py", "CobaMultiprocessor.filter", empties[0] if empties else cm, "the early return for an empty stream tests the peeked stream", ok, stmt="empty stream test")
 
 
+def r9_no_blocking_receive(ctx, rule="C08.R9"):
+    """never hangs: the parent reads a worker's report pipe only when something is in it (a worker that died without reporting leaves the pipe
+    empty and, because the parent holds the send end too, recv() would never see EOF)."""
+    ctx.rule(rule, "no blocking receive on a worker's report pipe: in ProcessLine every <pipe>.recv() executed by the parent is dominated by a true <pipe>.poll() test "
+                   "on the same pipe (a killed worker sends nothing and the parent's own send end keeps the pipe open)")
+    from ..util import all_guards
+    cls = ctx.model.cls(LNS, "ProcessLine")
+    n = 0
+    for name, fn in sorted(cls.methods.items()):
+        if name == "run":
+            continue   # runs in the worker
+        for c in [c for c in walk_shallow(fn) if isinstance(c, ast.Call) and call_tail(c) == "recv" and isinstance(c.func, ast.Attribute)]:
+            n += 1
+            pipe = unparse(c.func.value)
+            ok = any(pol and any(isinstance(y, ast.Call) and call_tail(y) == "poll" and isinstance(y.func, ast.Attribute) and unparse(y.func.value) == pipe and not y.args
+                                 for y in ast.walk(t)) and not (isinstance(t, ast.UnaryOp) and isinstance(t.op, ast.Not))
+                     for t, pol in all_guards(c, fn))
+            ctx.ob(rule, LNS, f"ProcessLine.{name}", c, f"{pipe}.recv() happens only after {pipe}.poll() returned true", ok)
+    ctx.floor(rule, "pipe receives in the parent-side methods of ProcessLine", n, 1)
+
+
 CONTROLS = [
+    ("report read without polling", LNS, M.replace_expr("ProcessLine._get_result", "self._recv.poll()", "True"), "C08.R9"),
     ("worker swallows EOFError of the filter", LNS, M.replace_stmt("ProcessLine.run", lambda st: isinstance(st, ast.Try),
         "try:\n    self._line.run()\nexcept (EOFError, BrokenPipeError):\n    ex, tb = None, None\nexcept Exception as e:\n    ex, tb = e, format_tb(e.__traceback__)\nexcept KeyboardInterrupt as e:\n    ex, tb = e, None\nelse:\n    ex, tb = None, None"), "C08.R7"),
     ("first item None means empty", "coba/multiprocessing.py", M.chain(M.replace_expr("CobaMultiprocessor.filter", "_", "first", nth=0), M.replace_expr("CobaMultiprocessor.filter", "not items", "first is None")), "C08.R7"),
